@@ -127,10 +127,39 @@ fn strip_to<'a>(shape: &'a Sexp, tag: &str) -> Option<&'a [Sexp]> {
 
 pub trait DArg: Sized + Copy + std::fmt::Debug {
     fn parse_for(shape: &Sexp, a: &Sexp) -> Option<Self>;
+    /// the model's `ArgTy` of this Rust argument type when used for `shape`
+    fn ty_for(shape: &Sexp) -> Sexp;
 }
 impl DArg for () {
     fn parse_for(shape: &Sexp, a: &Sexp) -> Option<()> {
         (unit_arg(shape)? == *a).then_some(())
+    }
+    fn ty_for(shape: &Sexp) -> Sexp {
+        unit_arg(shape).expect("`()` is the decode argument of a shape without `Vec`")
+    }
+}
+/// `[T; N]`: one argument per element — of a `Vec` (`AccountSetDecode<[TA; N]> for Vec<T>`, also reached
+/// through the `(I,)` form) or of an array (`AccountSetDecode<[DArg; N]> for [A; N]`)
+impl<T: DArg, const N: usize> DArg for [T; N] {
+    fn parse_for(shape: &Sexp, a: &Sexp) -> Option<Self> {
+        let (tag, elem) = match (strip_to(shape, "vec"), strip_to(shape, "arr")) {
+            (Some([e]), _) => ("each", e),
+            (_, Some([n, e])) if n.as_atom() == Some(N.to_string().as_str()) => ("arreach", e),
+            _ => return None,
+        };
+        let items = a.items(tag)?;
+        if items.len() != N {
+            return None;
+        }
+        let v: Vec<T> = items.iter().map(|x| T::parse_for(elem, x)).collect::<Option<_>>()?;
+        v.try_into().ok()
+    }
+    fn ty_for(shape: &Sexp) -> Sexp {
+        match (strip_to(shape, "vec"), strip_to(shape, "arr")) {
+            (Some([e]), _) => Sexp::tagged("each", vec![Sexp::atom(N.to_string()), T::ty_for(e)]),
+            (_, Some([_, e])) => Sexp::tagged("arreach", vec![Sexp::atom(N.to_string()), T::ty_for(e)]),
+            _ => panic!("[T; N] argument for a shape that is neither vec nor arr"),
+        }
     }
 }
 impl<T: DArg> DArg for (usize, T) {
@@ -143,11 +172,19 @@ impl<T: DArg> DArg for (usize, T) {
         }
         Some((n.parse().ok()?, T::parse_for(elem, inner)?))
     }
+    fn ty_for(shape: &Sexp) -> Sexp {
+        let [elem] = strip_to(shape, "vec").expect("(usize, T) is the argument of a vec") else { unreachable!() };
+        Sexp::tagged("len", vec![T::ty_for(elem)])
+    }
 }
 impl<T: DArg> DArg for (T,) {
     fn parse_for(shape: &Sexp, a: &Sexp) -> Option<Self> {
         let [_n, elem] = strip_to(shape, "arr")? else { return None };
         Some((T::parse_for(elem, a)?,))
+    }
+    fn ty_for(shape: &Sexp) -> Sexp {
+        let [_n, elem] = strip_to(shape, "arr").expect("(T,) is the argument of an array") else { unreachable!() };
+        T::ty_for(elem)
     }
 }
 
@@ -174,14 +211,36 @@ macro_rules! plain_set {
     };
 }
 
+/// A derived tuple-struct set (decode argument `()`); fields are given with their index.
+macro_rules! tuple_set {
+    ($name:ident, $client:ident ( $($i:tt : $t:ty),* $(,)? )) => {
+        #[derive(AccountSet, Debug)]
+        pub struct $name( $(pub $t),* );
+        impl Probe for $name {
+            type Client = $client;
+            fn shape() -> Sexp { Sexp::tagged("struct", vec![$(<$t as Probe>::shape()),*]) }
+            #[allow(unused_mut, unused_variables)]
+            fn client(v: &Sexp) -> Option<Self::Client> {
+                let mut it = v.items("many")?.iter();
+                let c = $client( $(<$t as Probe>::client(it.next()?)?),* );
+                if it.next().is_some() { return None; }
+                Some(c)
+            }
+            fn show(&self) -> Sexp { Sexp::tagged("many", vec![$(self.$i.show()),*]) }
+            #[allow(unused_variables)]
+            fn static_metas(out: &mut Vec<(bool, bool)>) { $(<$t as Probe>::static_metas(out);)* }
+        }
+    };
+}
+
 /// A derived set with a custom decode argument: one argument per field.
 macro_rules! args_set {
-    ($name:ident, $client:ident, $arg:ident { $($f:ident : $t:ty => $a:ty),* $(,)? }) => {
-        #[derive(BorshSerialize, BorshDeserialize, Debug, Clone, Copy, Default)]
+    ($name:ident, $client:ident, $arg:ident { $($f:ident : $t:ty => $a:ty $([$via:ident])?),* $(,)? }) => {
+        #[derive(BorshSerialize, BorshDeserialize, Debug, Clone, Copy)]
         pub struct $arg { $(pub $f: $a),* }
         #[derive(AccountSet, Debug)]
         #[decode(arg = $arg)]
-        pub struct $name { $(#[decode(arg = arg.$f)] pub $f: $t),* }
+        pub struct $name { $(#[decode(arg = via!($($via)? arg.$f))] pub $f: $t),* }
         impl Probe for $name {
             type Client = $client;
             fn shape() -> Sexp { Sexp::tagged("struct", vec![$(<$t as Probe>::shape()),*]) }
@@ -202,8 +261,18 @@ macro_rules! args_set {
                 if it.next().is_some() || sh.next().is_some() { return None; }
                 Some(r)
             }
+            fn ty_for(shape: &Sexp) -> Sexp {
+                let mut sh = strip_to(shape, "struct").expect("struct argument for a struct shape").iter();
+                Sexp::tagged("fields", vec![$(<$a as DArg>::ty_for(sh.next().unwrap())),*])
+            }
         }
     };
+}
+
+/// how a field's decode argument is passed on: as it is, or wrapped in a 1-tuple (the `(I,)` iterator form of `Vec`)
+macro_rules! via {
+    (tuple $e:expr) => { ($e,) };
+    ($e:expr) => { $e };
 }
 
 #[derive(Debug)]
@@ -216,6 +285,7 @@ pub enum Direct {
 pub trait HxIx: Sized {
     type Set: ProbeSet;
     fn make(darg: &Sexp, run: RunArgs) -> Option<Self>;
+    fn argty() -> Sexp;
     fn direct(infos: &[AccountInfo], data: &[u8]) -> Direct;
 }
 
@@ -242,6 +312,9 @@ macro_rules! hx_ix {
             fn make(darg: &Sexp, run: RunArgs) -> Option<Self> {
                 Some($ix { d: <$darg as DArg>::parse_for(&<$set as Probe>::shape(), darg)?, r: run })
             }
+            fn argty() -> Sexp {
+                <$darg as DArg>::ty_for(&<$set as Probe>::shape())
+            }
             fn direct(infos: &[AccountInfo], data: &[u8]) -> Direct {
                 let mut ctx = Context::new(&PID);
                 let mut payload = &data[8..];
@@ -264,7 +337,11 @@ macro_rules! hx_ix {
 
 pub struct SetEntry {
     pub name: &'static str,
+    /// from `gen_sets.rs` (seeded-random) rather than the curated family
+    pub generated: bool,
     pub shape: fn() -> Sexp,
+    /// the model's type of the instruction's decode argument
+    pub argty: fn() -> Sexp,
     /// `ClientAccountSet::MIN_LEN`, `CpiAccountSet::AccountLen`, `CpiAccountSet::ContainsOption`
     pub statics: fn() -> (usize, usize, bool),
     pub static_metas: fn() -> Vec<(bool, bool)>,
@@ -276,7 +353,7 @@ pub struct SetEntry {
     pub disc: fn() -> [u8; 8],
 }
 
-pub fn entry<I>(name: &'static str) -> SetEntry
+pub fn entry<I>(name: &'static str, generated: bool) -> SetEntry
 where
     I: HxIx + StarFrameInstruction<Accounts<'static, 'static> = <I as HxIx>::Set> + InstructionDiscriminant<HxIxSet> + BorshSerialize,
     I::Set: CpiAccountSet,
@@ -284,7 +361,9 @@ where
 {
     SetEntry {
         name,
+        generated,
         shape: <I::Set as Probe>::shape,
+        argty: I::argty,
         statics: || {
             (
                 <I::Set as ClientAccountSet>::MIN_LEN,
@@ -314,13 +393,15 @@ where
 }
 
 macro_rules! registry {
-    ($(($set:ident, $ix:ident, $darg:ty)),* ; extra $($t:ident),* $(,)?) => {
+    ([$(($set:ident, $ix:ident, $darg:ty)),* $(,)?] [$(($gset:ident, $gix:ident, $gdarg:ty)),* $(,)?] extra $($t:ident),* $(,)?) => {
         $(hx_ix!($ix, $set, $darg);)*
+        $(hx_ix!($gix, $gset, $gdarg);)*
         #[derive(InstructionSet)]
         #[ix_set(skip_idl)]
-        pub enum HxIxSet { $($ix($ix),)* $($t($t)),* }
+        pub enum HxIxSet { $($ix($ix),)* $($gix($gix),)* $($t($t)),* }
+        /// the curated family, then the seeded-random generated sets (`gen_sets.rs`)
         pub fn registry() -> Vec<SetEntry> {
-            vec![$(entry::<$ix>(stringify!($set))),*]
+            vec![$(entry::<$ix>(stringify!($set), false),)* $(entry::<$gix>(stringify!($gset), true)),*]
         }
     };
 }
@@ -380,6 +461,63 @@ plain_set!(S37, S37ClientAccounts { o: Option<NSg<Sg>>, v: [NMu<Mut<Sg>>; 2], r:
 plain_set!(S38, S38ClientAccounts { a: Mut<Box<Sg>>, b: Signer<Box<Mu>>, c: Box<Mut<Box<Sg>>>, d: Mut<Box<Box<Signer<Mu>>>>, e: NSg<Box<Sg>>, f: Signer<Box<AccountInfo>> });
 plain_set!(S39, S39ClientAccounts { o: Option<Mut<Box<Sg>>>, v: [Signer<Box<Mu>>; 2], p: Mut<Box<Program<System>>>, r: Rest<Mut<Box<Signer<Box<AccountInfo>>>>> });
 plain_set!(S40, S40ClientAccounts { a: Signer<Box<Mut<Box<Sg>>>>, o: Option<Box<Signer<Box<Mu>>>> });
+// zero-account sets in every position (`AccountLen` arithmetic at 0, `MIN_LEN` 0, ambiguous present optionals)
+plain_set!(S41, S41ClientAccounts { o: Option<[AccountInfo; 0]>, u: (), z: Sg });
+plain_set!(S42, S42ClientAccounts { a: [InE; 2], o: Option<()>, b: Box<InE>, c: [Option<InE>; 2], z: Mu });
+plain_set!(S43, S43ClientAccounts { a: [[AccountInfo; 0]; 3], b: [(); 2], c: [[Sg; 2]; 0], o: Option<Box<[Mu; 0]>> });
+plain_set!(S44, S44ClientAccounts { u: () });
+plain_set!(S45, S45ClientAccounts { o: Option<InE>, p: Option<[Option<AccountInfo>; 0]>, r: Rest<Sg> });
+
+// tuple-struct and generic derived account sets
+tuple_set!(TS1, TS1ClientAccounts (0: Sg, 1: Option<Mu>, 2: [AccountInfo; 2]));
+tuple_set!(TS2, TS2ClientAccounts (0: TS1, 1: Box<TS1>, 2: Rest<TS3>));
+tuple_set!(TS3, TS3ClientAccounts (0: Mut<Sg>));
+
+/// what a field type of a generic derived set has to provide for the three lifecycle impls
+pub trait GenericField: for<'x> AccountSetDecode<'x, ()> + AccountSetValidate<()> + star_frame::account_set::AccountSetCleanup<()> {}
+impl<T> GenericField for T where T: for<'x> AccountSetDecode<'x, ()> + AccountSetValidate<()> + star_frame::account_set::AccountSetCleanup<()> {}
+
+/// A derived set generic in its field types (the bounds the generated `…ClientAccounts` / `…CpiAccounts`
+/// structs need have to be written by the user; `Option<A>` cannot be, its CPI helper trait is private).
+#[derive(AccountSet, Debug)]
+pub struct GPair<A, B>
+where
+    A: CpiAccountSet<CpiAccounts: Clone> + ClientAccountSet + Clone + std::fmt::Debug + GenericField,
+    B: CpiAccountSet<CpiAccounts: Clone> + ClientAccountSet + Clone + std::fmt::Debug + GenericField,
+    B::AccountLen: core::ops::Mul<star_frame::typenum::U2>,
+    star_frame::typenum::Prod<B::AccountLen, star_frame::typenum::U2>: Unsigned,
+{
+    pub a: A,
+    pub b: [B; 2],
+    pub c: Box<A>,
+}
+impl<A, B> Probe for GPair<A, B>
+where
+    A: crate::probe::ProbeSet + CpiAccountSet<CpiAccounts: Clone> + Clone + std::fmt::Debug + GenericField,
+    B: crate::probe::ProbeSet + CpiAccountSet<CpiAccounts: Clone> + Clone + std::fmt::Debug + GenericField,
+    B::AccountLen: core::ops::Mul<star_frame::typenum::U2>,
+    star_frame::typenum::Prod<B::AccountLen, star_frame::typenum::U2>: Unsigned,
+    GPairClientAccounts<A, B>: Clone + std::fmt::Debug,
+{
+    type Client = GPairClientAccounts<A, B>;
+    fn shape() -> Sexp {
+        Sexp::tagged("struct", vec![A::shape(), <[B; 2] as Probe>::shape(), <Box<A> as Probe>::shape()])
+    }
+    fn client(v: &Sexp) -> Option<Self::Client> {
+        let [a, b, c] = v.items("many")? else { return None };
+        Some(GPairClientAccounts { a: A::client(a)?, b: <[B; 2] as Probe>::client(b)?, c: <Box<A> as Probe>::client(c)? })
+    }
+    fn show(&self) -> Sexp {
+        Sexp::tagged("many", vec![self.a.show(), self.b.show(), self.c.show()])
+    }
+    fn static_metas(out: &mut Vec<(bool, bool)>) {
+        A::static_metas(out);
+        <[B; 2] as Probe>::static_metas(out);
+        <Box<A> as Probe>::static_metas(out);
+    }
+}
+plain_set!(GS1, GS1ClientAccounts { g: GPair<Sg, Mu>, h: GPair<Option<Mu>, Option<AccountInfo>>, z: AccountInfo });
+type GS2 = GPair<Mut<Sg>, Sg>;
 
 args_set!(V01, V01ClientAccounts, V01Arg { v: Vec<AccountInfo> => (usize, ()) });
 args_set!(V02, V02ClientAccounts, V02Arg { a: Sg => (), v: Vec<Mut<Sg>> => (usize, ()), z: AccountInfo => () });
@@ -392,18 +530,29 @@ args_set!(V08, V08ClientAccounts, V08Arg { a: [Vec<AccountInfo>; 2] => ((usize, 
 args_set!(V09, V09ClientAccounts, V09Arg { o: Option<Vec<AccountInfo>> => (usize, ()), z: AccountInfo => () });
 args_set!(V10, V10ClientAccounts, V10Arg { v: Box<Vec<Box<AccountInfo>>> => (usize, ()) });
 args_set!(V11, V11ClientAccounts, V11Arg { v: Vec<Sg> => (usize, ()), r: Rest<Mu> => () });
+// per-element decode arguments: `[TA; N]` for a `Vec` (directly and through the `(I,)` form), `[DArg; N]` for an array
+args_set!(V13, V13ClientAccounts, V13Arg { v: Vec<Mu> => [(); 2], z: AccountInfo => () });
+args_set!(V14, V14ClientAccounts, V14Arg { v: Vec<Vec<AccountInfo>> => [(usize, ()); 3] });
+args_set!(V15, V15ClientAccounts, V15Arg { a: [Vec<Sg>; 2] => [(usize, ()); 2], z: Mu => () });
+args_set!(V16, V16ClientAccounts, V16Arg { v: Vec<[Vec<AccountInfo>; 2]> => (usize, [(usize, ()); 2]) });
+args_set!(V17, V17ClientAccounts, V17Arg { v: Vec<Option<Sg>> => [(); 3] [tuple], w: Vec<Vec<Mu>> => [(usize, ()); 1] [tuple] });
+args_set!(V18, V18ClientAccounts, V18Arg { v: Vec<AccountInfo> => [(); 0], a: [Vec<AccountInfo>; 0] => [(usize, ()); 0], o: Option<Vec<Sg>> => [(); 1] });
 args_set!(V12, V12ClientAccounts, V12Arg { n: V01 => V01Arg, z: AccountInfo => (), m: Vec<V06> => (usize, V06Arg) });
 
-registry! {
+include!("gen_sets.rs");
+
+with_generated_sets! { [
     (S01, IxS01, ()), (S02, IxS02, ()), (S03, IxS03, ()), (S04, IxS04, ()), (S05, IxS05, ()), (S06, IxS06, ()),
     (S07, IxS07, ()), (S08, IxS08, ()), (S09, IxS09, ()), (S10, IxS10, ()), (S11, IxS11, ()), (S12, IxS12, ()),
     (S13, IxS13, ()), (S14, IxS14, ()), (S15, IxS15, ()), (S16, IxS16, ()), (S17, IxS17, ()), (S18, IxS18, ()),
     (S19, IxS19, ()), (S20, IxS20, ()), (S21, IxS21, ()), (S22, IxS22, ()), (S23, IxS23, ()), (S24, IxS24, ()),
     (S25, IxS25, ()), (S26, IxS26, ()), (S27, IxS27, ()), (S28, IxS28, ()), (S29, IxS29, ()), (S30, IxS30, ()),
-    (S31, IxS31, ()), (S32, IxS32, ()), (S33, IxS33, ()), (S34, IxS34, ()), (S35, IxS35, ()), (S36, IxS36, ()), (S37, IxS37, ()), (S38, IxS38, ()), (S39, IxS39, ()), (S40, IxS40, ()),
+    (S31, IxS31, ()), (S32, IxS32, ()), (S33, IxS33, ()), (S34, IxS34, ()), (S35, IxS35, ()), (S36, IxS36, ()), (S37, IxS37, ()), (S38, IxS38, ()), (S39, IxS39, ()), (S40, IxS40, ()), (S41, IxS41, ()), (S42, IxS42, ()), (S43, IxS43, ()), (S44, IxS44, ()), (S45, IxS45, ()),
+    (TS1, IxTS1, ()), (TS2, IxTS2, ()), (GS1, IxGS1, ()), (GS2, IxGS2, ()),
     (V01, IxV01, V01Arg), (V02, IxV02, V02Arg), (V03, IxV03, V03Arg), (V04, IxV04, V04Arg), (V05, IxV05, V05Arg),
     (V06, IxV06, V06Arg), (V07, IxV07, V07Arg), (V08, IxV08, V08Arg), (V09, IxV09, V09Arg), (V10, IxV10, V10Arg),
-    (V11, IxV11, V11Arg), (V12, IxV12, V12Arg);
+    (V11, IxV11, V11Arg), (V12, IxV12, V12Arg), (V13, IxV13, V13Arg), (V14, IxV14, V14Arg), (V15, IxV15, V15Arg),
+    (V16, IxV16, V16Arg), (V17, IxV17, V17Arg), (V18, IxV18, V18Arg)]
     extra T01, T02, T03, T04, T05, T06, T07, T08, T09, T10
 }
 pub use crate::tuples::{T01, T02, T03, T04, T05, T06, T07, T08, T09, T10};
